@@ -386,7 +386,7 @@ func init() {
 					if ps[i].Seed%3 != 2 {
 						ps[i].Features = append(ps[i].Features, "small-ties", "whale-exit") // total stake decided by the c14 holders: below / around the cap
 					}
-					if i%2 == 1 {
+					if i%4 == 1 {
 						ps[i].Features = append(ps[i].Features, "ungraded-snapshot") // snapshot heights without rates, before and after 2.0.2
 					} else {
 						ps[i].Features = append(ps[i].Features, "snapshot-before-dev") // the first snapshot lies before the developer-reward activation
